@@ -20,6 +20,9 @@ type Script struct {
 	n         int
 	usesStr   bool
 	inQuant   int
+	tags      map[int]int // line index -> goal tag: the line is a side fact of the evaluation of one goal only
+	curTag    int
+	tagSeq    int
 	scopes    []*loopInfo // per line: innermost loop of the top-level function in whose body the line was emitted
 	curScope  *loopInfo
 }
@@ -133,6 +136,31 @@ func (s *Script) global(name, decl string) {
 
 func (s *Script) mark() int { return len(s.lines) }
 
+// assumeLocal: a well-formedness fact about a term that only the goal currently being built mentions. It is
+// rendered for obligations of that goal only; every other obligation never sees the term.
+func (s *Script) assumeLocal(guard, fact Term) {
+	n := len(s.lines)
+	s.assume(guard, fact)
+	if s.curTag != 0 && len(s.lines) == n+1 {
+		if s.tags == nil {
+			s.tags = map[int]int{}
+		}
+		s.tags[n] = s.curTag
+	}
+}
+
+// goal runs f (evaluation of one specification clause and its obligations) with a fresh tag
+func (s *Script) goal(f func()) {
+	if s.curTag != 0 {
+		f()
+		return
+	}
+	s.tagSeq++
+	s.curTag = s.tagSeq
+	defer func() { s.curTag = 0 }()
+	f()
+}
+
 // inScope: is the current program point inside loop sc (or one nested in it)?
 func (s *Script) inScope(sc *loopInfo) bool {
 	for c := s.curScope; c != nil; c = c.parent {
@@ -157,6 +185,9 @@ func (s *Script) render(mark int, guard, goal Term, comment string, logicStrings
 	for i, l := range s.lines[:mark] {
 		if sc := s.scopes[i]; sc != nil && strings.HasPrefix(l, "(assert") && !sc.hasBreak && !s.inScope(sc) {
 			continue // an assumption made inside a loop body that the current program point is not part of
+		}
+		if tg, ok := s.tags[i]; ok && tg != s.curTag {
+			continue
 		}
 		b.WriteString(l)
 		b.WriteByte('\n')
